@@ -21,6 +21,8 @@ const (
 	srcCallback                   // parameter of a callback handed to Rows.Ascend*
 	srcFresh                      // freshly allocated row
 	srcParam                      // parameter of a named in-repo function (obligation moves to callers)
+	srcNil                        // the nil constant (an unset variable)
+	srcLoopCarried                // value carried over from the previous loop iteration (φ at a loop header)
 	srcUnknown
 )
 
@@ -107,8 +109,16 @@ func rowSources(p *core.Program, v ssa.Value, seen map[ssa.Value]bool) []rowSrc 
 	}
 	seen[v] = true
 	switch x := v.(type) {
+	case *ssa.Const:
+		if x.Value == nil {
+			return []rowSrc{{kind: srcNil, val: v}}
+		}
 	case *ssa.Phi:
 		var out []rowSrc
+		if loopHeader(x.Block()) {
+			// one of the edges is the back edge: the row survives from the previous iteration
+			out = append(out, rowSrc{kind: srcLoopCarried, val: v})
+		}
 		for _, e := range x.Edges {
 			out = append(out, rowSources(p, e, seen)...)
 		}
@@ -309,6 +319,11 @@ func R02R03() Rule {
 				switch s.kind {
 				case srcFresh:
 					why = append(why, "fresh row")
+				case srcNil:
+					why = append(why, "nil (unset)")
+				case srcLoopCarried:
+					ok = false
+					c.Bad("R02", construct+"/carried-across-iterations", pos, "the row written here can be the row object of the previous loop iteration (it is kept in a variable across iterations instead of being read afresh): mutations of a previous element — including the partial mutations of an element that failed — are carried into this element's write")
 				case srcParam:
 					why = append(why, fmt.Sprintf("parameter %d of %s (obligation carried by its callers)", s.param, core.FuncName(s.fn)))
 				case srcReader:
